@@ -1,4 +1,3 @@
-import Secp.Proofs.ScalarApiTies
 import Secp.Proofs.WrapperTies
 import Secp.Proofs.Lawful
 import Secp.Proofs.Reduce
